@@ -53,6 +53,8 @@ struct Standalone {
     failures: Vec<String>,
     trusted: bool,
     active: Option<String>,
+    /// codes of Reader::validation_status(): active-manifest failures + new failures of nested ingredients
+    all_errors: Vec<String>,
 }
 
 fn codes(v: &Value, kind: &str) -> Vec<String> {
@@ -66,16 +68,18 @@ fn standalone(format: &str, bytes: &[u8], trust: bool) -> Standalone {
     let r = report::catch_sdk(move || {
         Reader::from_context(ctx(trust)).with_stream(&f, Cursor::new(b)).map(|r| {
             let vr = r.validation_results().map(|v| serde_json::to_value(v).unwrap_or(Value::Null)).unwrap_or(Value::Null);
-            (format!("{:?}", r.validation_state()), vr, r.active_label().map(|s| s.to_string()))
+            let mut all: Vec<String> = r.validation_status().map(|v| v.iter().map(|s| s.code().to_string()).collect()).unwrap_or_default();
+            all.sort();
+            (format!("{:?}", r.validation_state()), vr, r.active_label().map(|s| s.to_string()), all)
         })
     });
     match r {
-        Ok(Ok((state, vr, active))) => {
+        Ok(Ok((state, vr, active, all_errors))) => {
             let am = vr.get("activeManifest").cloned().unwrap_or(Value::Null);
-            Standalone { ok: true, err: None, state, failures: codes(&am, "failure"), trusted: codes(&am, "success").iter().any(|c| c == "signingCredential.trusted"), active }
+            Standalone { ok: true, err: None, state, failures: codes(&am, "failure"), trusted: codes(&am, "success").iter().any(|c| c == "signingCredential.trusted"), active, all_errors }
         }
-        Ok(Err(e)) => Standalone { ok: false, err: Some(report::err_kind(&e)), state: "Err".into(), failures: vec![], trusted: false, active: None },
-        Err(p) => Standalone { ok: false, err: Some(format!("panic: {p}")), state: "Panic".into(), failures: vec![], trusted: false, active: None },
+        Ok(Err(e)) => Standalone { ok: false, err: Some(report::err_kind(&e)), state: "Err".into(), failures: vec![], trusted: false, active: None, all_errors: vec![] },
+        Err(p) => Standalone { ok: false, err: Some(format!("panic: {p}")), state: "Panic".into(), failures: vec![], trusted: false, active: None, all_errors: vec![] },
     }
 }
 
@@ -155,6 +159,37 @@ fn make_subjects(a: &assets::Asset, notes: &mut Vec<String>) -> Vec<Subject> {
             }
         }
     }
+    // version-1 claims (the only ingredients a version-1 parent accepts): a valid one, and an edit whose
+    // nested (parent) manifest is damaged AFTER the edit was signed, so that the failure is a new one of the
+    // nested ingredient (Reader::validation_status() lists it; the active manifest's own list does not)
+    if matches!(a.name.as_str(), "tiny.jpg" | "tiny.png" | "tiny.gif" | "tiny.wav") {
+        if let Ok(v1) = defgen::sign_simple_v(a.format, &a.bytes, &format!("v1 src {}", a.name), "es256", create(), &[], Some(1)) {
+            out.push(mk("v1-signed", v1.clone(), true, String::new()));
+            if let Ok(e2) = defgen::sign_simple_v(a.format, &v1, "v1 edit", "ps256", BuilderIntent::Edit, &[], Some(1)) {
+                if let Ok(p) = ifmt::parse(a.format, &e2) {
+                    if let Some(c) = p.containers.first().filter(|c| !c.encoded) {
+                        // the first manifest of the store is the older (nested) one
+                        if let Some((s, e)) = jumbf::parse_store(&c.store).and_then(|t| jumbf::content_range(&t, "c2pa.assertions/org.verif.ing")) {
+                            let spos = (s + e) / 2;
+                            let mut acc = 0usize;
+                            for (rs, rl) in &c.store_ranges {
+                                if spos < acc + rl {
+                                    let fp = rs + (spos - acc);
+                                    let mut t = e2.clone();
+                                    t[fp] ^= 0x01;
+                                    out.push(mk("v1-nested-store-tamper", t, true, format!("v1 edit; store byte {spos} (file byte {fp}) of the nested manifest's org.verif.ing flipped afterwards")));
+                                    break;
+                                }
+                                acc += rl;
+                            }
+                        }
+                    }
+                }
+            }
+        } else {
+            notes.push(format!("{}: cannot sign a version-1 claim", a.name));
+        }
+    }
     // remote-only: reference in XMP, nothing embedded
     {
         let c = ctx(true);
@@ -210,8 +245,14 @@ fn run_case(s: &Subject, rel: &'static str, twice: bool, source: &assets::Asset)
     let mut counts: BTreeMap<String, u64> = BTreeMap::new();
     let mut unjudged = Vec::new();
     let fam = ifmt::family(&source.format).unwrap_or("?");
-    let tag = format!("{fam}|{}|{rel}{}", s.state, if twice { "|twice" } else { "" });
-    let sample = json!({"asset": s.asset, "format": s.format, "state": s.state, "relationship": rel, "twice": twice, "note": s.note});
+    // "componentOf/v1": the parent is a version-1 claim, whose ingredient assertion stores the flat
+    // validation_status list (what Reader::validation_status() gives for the ingredient alone)
+    let (rel, v1) = match rel.strip_suffix("/v1") {
+        Some(_) => ("componentOf", true),
+        None => (rel, false),
+    };
+    let tag = format!("{fam}|{}|{rel}{}{}", s.state, if twice { "|twice" } else { "" }, if v1 { "|v1-parent" } else { "" });
+    let sample = json!({"asset": s.asset, "format": s.format, "state": s.state, "relationship": rel, "v1_parent": v1, "twice": twice, "note": s.note});
     // cause-class signature: byte-level defects keep the container family, everything else is
     // (ingredient state, defect) — the relationship / format are swept, not causes
     let sig = |defect: &str| {
@@ -233,7 +274,11 @@ fn run_case(s: &Subject, rel: &'static str, twice: bool, source: &assets::Asset)
     }
     // parent
     let c = ctx(s.trust);
-    let mut b = match Builder::from_context(c).with_definition(json!({"title": "parent", "assertions": [{"label": "org.verif.parent", "data": {"p": 1}}]})) {
+    let mut b = match Builder::from_context(c).with_definition(if v1 {
+        json!({"claim_version": 1, "title": "parent", "assertions": [{"label": "org.verif.parent", "data": {"p": 1}}]})
+    } else {
+        json!({"title": "parent", "assertions": [{"label": "org.verif.parent", "data": {"p": 1}}]})
+    }) {
         Ok(b) => b,
         Err(e) => return fail("harness", format!("definition: {e}"), counts, unjudged),
     };
@@ -264,6 +309,11 @@ fn run_case(s: &Subject, rel: &'static str, twice: bool, source: &assets::Asset)
         Ok(Ok(st)) => st,
         Ok(Err(e)) => {
             let kind = report::err_kind(&e);
+            if v1 && format!("{e:?}").contains("ingredient version too new") {
+                // a version-1 claim cannot carry an ingredient whose claim is newer: documented refusal
+                unjudged.push("v1-parent: ingredient claim is newer than the parent's (refused at sign)".into());
+                return Res { class: format!("{tag}|v1-parent-refuses-newer-ingredient"), violation: None, unjudged, counts, sample };
+            }
             return fail(&format!("sign-error:{kind}"), format!("signing the parent failed: {e:?} (ingredient {} stand-alone state {} error {:?}, failures {:?})", s.asset, sa.state, sa.err, sa.failures), counts, unjudged);
         }
         Err(p) => return fail("sign-panic", format!("panic while signing the parent: {p}"), counts, unjudged),
@@ -354,6 +404,18 @@ fn run_case(s: &Subject, rel: &'static str, twice: bool, source: &assets::Asset)
         if sa.active.as_deref() != Some(al) {
             return fail("active-manifest-label", format!("ingredient active_manifest {al}, stand-alone active label {:?}", sa.active), counts, unjudged);
         }
+        if v1 {
+            let mut fs: Vec<String> = i.get("validation_status").and_then(|v| v.as_array()).map(|a| a.iter().filter_map(|e| e.get("code").and_then(|c| c.as_str()).map(|s| s.to_string())).collect()).unwrap_or_default();
+            fs.sort();
+            *counts.entry("judged_v1_status".into()).or_insert(0) += 1;
+            if !sa.all_errors.is_empty() && sa.all_errors != sa.failures {
+                *counts.entry("judged_v1_status_with_nested_failures".into()).or_insert(0) += 1;
+            }
+            if fs != sa.all_errors {
+                return fail("v1-status-codes", format!("version-1 parent records validation_status {:?}, stand-alone Reader::validation_status() {:?} (state {})", fs, sa.all_errors, sa.state), counts, unjudged);
+            }
+            continue;
+        }
         let ram = i.get("validation_results").and_then(|v| v.get("activeManifest")).cloned().unwrap_or(Value::Null);
         let rf = codes(&ram, "failure");
         let rtrusted = codes(&ram, "success").iter().any(|c| c == "signingCredential.trusted");
@@ -421,6 +483,9 @@ fn main() {
         }
         if matches!(s.state, "signed-valid" | "chain3" | "unsigned") {
             work.push((si, "componentOf", true));
+        }
+        if s.state.starts_with("v1-") || s.state == "fixture-signed" {
+            work.push((si, "componentOf/v1", false));
         }
     }
     let results = par::par_map_watch(
